@@ -5,7 +5,7 @@
 // Error model (DESIGN Appendix B "rhumb": round-off level, calibrated then frozen).  An error is measured as a
 // displacement in metres (distance; azimuth error x length; latitude error x M; longitude error x parallel radius) or in
 // m^2, and compared with
-//      T = K * [ (eps + Ctr |n|^7 [series mode only]) * scale  +  sens ]
+//      T = (K + Ctr |n|^7 / eps [series mode only]) * [ eps * scale  +  sens ]
 // scale = max(a, |s12|) (area: a^2 |lon12| in radians), eps = 2^-52, and sens = the change of the oracle's answer when a
 // latitude argument is moved by delta = 2^-52 * 90 deg, i.e. the condition of the case with respect to one rounding of a
 // latitude-like quantity (a backward-stable evaluation cannot do better; without it the cells next to the poles, where a
@@ -41,6 +41,9 @@ static const double K_S = KS_, K_AZI = KAZI_, K_AREA = KAREA_, K_LAT = KLAT_, K_
 static const double K_S = 1e30, K_AZI = 1e30, K_AREA = 1e30, K_LAT = 1e30, K_LON = 1e30, K_DAREA = 1e30, C_TR = 0, K_ELLAREA = 1e30;
 #endif
 
+// input class of the known defect in DAuxLatitude::DE (see known_findings.d/C09.json)
+static const char* DEQ_CLASS = "exact-variant,prolate,both-points-within-1deg-of-equator";
+
 struct EllSpec { double a, f; bool exact_only, quick; };
 static const double WF = 1 / 298.257223563, WA = 6378137;
 static const EllSpec ELLS[] = {
@@ -64,12 +67,15 @@ struct Env {
     double n = s.f / (2 - s.f); n7 = std::pow(std::fabs(n), 7);
     ename = "a=" + fmt(s.a) + ",f=" + fmt(s.f);
   }
-  // relative base error of a mode
-  double rel(int mode) const { return EPS + (mode == 0 ? C_TR * n7 : 0); }
+  // effective multiple of the round-off model: the series variant adds its truncation error, which acts like a
+  // relative perturbation C |n|^7 of the same latitude-like quantities
+  double keff(double K, int mode, double ctr) const { return K + (mode == 0 ? ctr * n7 / EPS : 0); }
+  // cases inside the input class of a known defect are kept out of the worst-case statistics of the healthy regime
+  bool deq = false;
   bool smallf() const { return std::fabs(es.f) <= 0.01; }
   std::string wname(const char* pred, int mode) const {
     // worst-case statistics are kept per regime: exact / series with |f| <= 0.01 (round-off claim) / series beyond
-    return std::string(pred) + (mode ? ".exact" : (smallf() ? ".series" : ".series_bigf"));
+    return std::string(pred) + (mode ? ".exact" : (smallf() ? ".series" : ".series_bigf")) + (deq ? ".in_known_defect_class" : "");
   }
 };
 
@@ -77,13 +83,13 @@ struct Env {
 static bool judge(Env& V, const char* pred, int mode, double K, Q err, Q model, const std::string& where) {
   double r = qd(fabsq(err) / model);
   V.ctx.worst(V.wname(pred, mode) + ".err_over_model", r, where);
-  return !(r <= K);      // true = violation (also for NaN)
+  return !(r <= V.keff(K, mode, C_TR));      // true = violation (also for NaN)
 }
 // truncation constant observed (series, |f| > 0.01): (err - K_eps part) / (n^7 scale)
 static void trunc_stat(Env& V, const char* pred, Q err, Q scale, Q sens, const std::string& where) {
   if (V.smallf() || V.n7 == 0) return;
-  Q excess = fabsq(err) - 16 * (EPS * scale + sens);
-  if (excess > 0) V.ctx.worst(std::string(pred) + ".series_trunc_over_n7", qd(excess / (V.n7 * scale)), where);
+  Q excess = fabsq(err) / (EPS * scale + sens) - 16;
+  if (excess > 0) V.ctx.worst(std::string(pred) + ".series_trunc_constant", qd(excess) * EPS / V.n7, where);
 }
 
 int main(int argc, char** argv) {
@@ -126,7 +132,7 @@ int main(int argc, char** argv) {
       if (!V.rh[mode]) continue;
       Ctx::Case cs(ctx);
       double A = V.rh[mode]->EllipsoidArea(); Q Ao = V.E.area();
-      if (judge(V, "ellipsoid_area", mode, K_ELLAREA, Q(A) - Ao, V.rel(mode) * Ao, V.ename))
+      if (judge(V, "ellipsoid_area", mode, K_ELLAREA, Q(A) - Ao, EPS * Ao, V.ename))
         ctx.fail("area " + V.ename + " mode " + fmti(mode), "EllipsoidArea " + fx(A) + " != closed form " + qs(Ao), {{"kind", "ellipsoid-area"}, {"ell", V.ename}, {"exact", fmti(mode)}});
       if (V.rh[mode]->EquatorialRadius() != V.es.a || V.rh[mode]->Flattening() != V.es.f)
         ctx.fail("inspect " + V.ename, "EquatorialRadius/Flattening do not return the constructor arguments", {{"kind", "inspector"}});
@@ -161,8 +167,9 @@ int main(int argc, char** argv) {
         if (!V.rh[mode]) continue;
         const Rhumb& rh = *V.rh[mode];
         Ctx::Case cs(ctx);
+        V.deq = mode == 1 && V.es.f < 0 && std::fabs(lat1) <= 1 && std::fabs(lat2) <= 1;
         std::string key = V.ename + " exact=" + fmti(mode) + " inv(" + fx(lat1) + "," + fx(lon1) + "," + fx(lat2) + "," + fx(lon2) + ")";
-        mc::Fields F{{"ell", V.ename}, {"exact", fmti(mode)}, {"lat1", fmt(lat1)}, {"lat2", fmt(lat2)}, {"lon12_given", fmt(l12)}};
+        mc::Fields F{{"ell", V.ename}, {"exact", fmti(mode)}, {"lat1", fmt(lat1)}, {"lat2", fmt(lat2)}, {"lon12_given", fmt(l12)}, {"class", V.deq ? DEQ_CLASS : "-"}};
         auto FF = [&](const char* kind) { mc::Fields g = F; g.push_back({"kind", kind}); return g; };
         double s12 = SENT, azi12 = SENT, S12 = SENT;
         rh.GenInverse(lat1, lon1, lat2, lon2, Rhumb::ALL, s12, azi12, S12);
@@ -177,16 +184,16 @@ int main(int argc, char** argv) {
         }
         // ---- distance
         if (!(s12 >= 0)) ctx.fail(key, "s12 = " + fx(s12) + " is negative or NaN", FF("s12-range"));
-        if (judge(V, "inv.s12", mode, K_S, Q(s12) - ox.s12, V.rel(mode) * scale + sens_s, key))
-          ctx.fail(key + " s12", "s12 = " + fx(s12) + " oracle " + qs(ox.s12) + " model " + qs(V.rel(mode) * scale + sens_s), FF("inv-s12"));
+        if (judge(V, "inv.s12", mode, K_S, Q(s12) - ox.s12, EPS * scale + sens_s, key))
+          ctx.fail(key + " s12", "s12 = " + fx(s12) + " oracle " + qs(ox.s12) + " model " + qs(EPS * scale + sens_s), FF("inv-s12"));
         if (mode == 0) trunc_stat(V, "inv.s12", Q(s12) - ox.s12, scale, sens_s, key);
         // ---- azimuth
         if (ox.azi_indet) { ctx.count("inverse_same_pole_azimuth_not_compared"); ctx.list("skipped", "inverse with both points at the same pole: azimuth indeterminate (library returns NaN from inf-inf; the header's 'cos(lat) := eps^2' description of the poles is stale) -- not compared"); }
         else {
           if (!(azi12 >= -180 && azi12 <= 180)) ctx.fail(key, "azi12 = " + fx(azi12) + " outside [-180,180]", FF("azi-range"));
           Q da = angdiff360(Q(azi12), ox.azi12) * rhq::deg() * ox.s12;
-          if (judge(V, "inv.azi12_x_s12", mode, K_AZI, da, V.rel(mode) * scale + sens_az, key))
-            ctx.fail(key + " azi12", "azi12 = " + fx(azi12) + " oracle " + qs(ox.azi12) + " (error x s12 = " + qs(da) + " m, model " + qs(V.rel(mode) * scale + sens_az) + ")", FF("inv-azi12"));
+          if (judge(V, "inv.azi12_x_s12", mode, K_AZI, da, EPS * scale + sens_az, key))
+            ctx.fail(key + " azi12", "azi12 = " + fx(azi12) + " oracle " + qs(ox.azi12) + " (error x s12 = " + qs(da) + " m, model " + qs(EPS * scale + sens_az) + ")", FF("inv-azi12"));
           if (mode == 0) trunc_stat(V, "inv.azi12_x_s12", da, scale, sens_az, key);
           // exactly meridional and exactly east-west courses have exact azimuths
           if (c0.kind == 1 && lam != 0 && std::fabs(azi12) != 90) ctx.fail(key, "east-west course with azi12 = " + fx(azi12), FF("azi-cardinal"));
@@ -195,14 +202,14 @@ int main(int argc, char** argv) {
         // ---- area
         if (ox.area_indet) { ctx.count("inverse_pole_to_pole_area_not_compared"); ctx.list("skipped", "inverse from one pole to the other: area indeterminate (library returns NaN) -- not compared"); }
         else {
-          if (judge(V, "inv.S12", mode, K_AREA, Q(S12) - ox.S12, V.rel(mode) * ascale + sens_S, key))
-            ctx.fail(key + " S12", "S12 = " + fx(S12) + " oracle " + qs(ox.S12) + " model " + qs(V.rel(mode) * ascale + sens_S), FF("inv-S12"));
+          if (judge(V, "inv.S12", mode, K_AREA, Q(S12) - ox.S12, EPS * ascale + sens_S, key))
+            ctx.fail(key + " S12", "S12 = " + fx(S12) + " oracle " + qs(ox.S12) + " model " + qs(EPS * ascale + sens_S), FF("inv-S12"));
           if (mode == 0) trunc_stat(V, "inv.S12", Q(S12) - ox.S12, ascale, sens_S, key);
         }
         // ---- series and exact agree for |f| <= 0.01
         if (mode == 1 && V.rh[0] && V.smallf()) {
           double s0 = SENT, a0 = SENT, S0 = SENT; V.rh[0]->GenInverse(lat1, lon1, lat2, lon2, Rhumb::ALL, s0, a0, S0);
-          Q ts = (V.rel(0) + V.rel(1)) * scale + 2 * sens_s, ta = (V.rel(0) + V.rel(1)) * scale + 2 * sens_az, tS = (V.rel(0) + V.rel(1)) * ascale + 2 * sens_S;
+          Q ts = 2 * EPS * scale + 2 * sens_s, ta = 2 * EPS * scale + 2 * sens_az, tS = 2 * EPS * ascale + 2 * sens_S;
           bool bad = false;
           bad |= judge(V, "series_vs_exact.inv.s12", 1, K_S, Q(s0) - Q(s12), ts, key);
           if (!ox.azi_indet) bad |= judge(V, "series_vs_exact.inv.azi12_x_s12", 1, K_AZI, angdiff360(Q(a0), Q(azi12)) * rhq::deg() * ox.s12, ta, key);
@@ -213,9 +220,9 @@ int main(int argc, char** argv) {
         if (c0.kind <= 1 && std::isfinite(azi12) && std::isfinite(s12)) {
           double la = SENT, lo = SENT, Sd = SENT;
           rh.GenDirect(lat1, lon1, azi12, s12, Rhumb::LATITUDE | Rhumb::LONGITUDE | Rhumb::AREA, la, lo, Sd);
-          Q relc = EPS + (mode == 0 ? CTR_ * V.n7 : 0);
-          Q tinv = KS_ * (relc * scale + sens_s) + KAZI_ * (relc * scale + sens_az);
-          Q tdl = KLON_ * (relc * scale + sens_dl), tdp = KLAT_ * (relc * scale);
+          auto KE = [&](double K) { return Q(V.keff(K, mode, CTR_)); };
+          Q tinv = KE(KS_) * (EPS * scale + sens_s) + KE(KAZI_) * (EPS * scale + sens_az);
+          Q tdl = KE(KLON_) * (EPS * scale + sens_dl), tdp = KE(KLAT_) * (EPS * scale);
           Q elat = (Q(la) - Q(lat2)) * rhq::deg() * M2, elon = angdiff360(Q(lo), Q(lon2)) * rhq::deg() * c0.R2;
           double r1 = qd(fabsq(elat) / (tinv + tdp)), r2 = qd(fabsq(elon) / (tinv + tdl));
           ctx.worst(V.wname("close.direct_of_inverse.lat", mode) + ".err_over_tol", r1, key);
@@ -223,7 +230,7 @@ int main(int argc, char** argv) {
           if (!(r1 <= K_CLOSE) || !(r2 <= K_CLOSE))
             ctx.fail(key + " closure", "Direct(lat1,lon1,azi12,s12) = (" + fx(la) + "," + fx(lo) + ") does not reproduce point 2 (" + fx(lat2) + "," + fx(lon2) + "): " + qs(elat) + " m, " + qs(elon) + " m", FF("direct-of-inverse"));
           // the area of the direct course equals the area of the inverse course
-          Q tS = (KAREA_ + KDAREA_) * (relc * ascale + sens_S) + fabsq(c0.meanA) * (tinv + tdl) / fmaxq(c0.R2, Q(1e-300));
+          Q tS = (KE(KAREA_) + KE(KDAREA_)) * (EPS * ascale + sens_S) + fabsq(c0.meanA) * (tinv + tdl) / fmaxq(c0.R2, Q(1e-300));
           double r3 = qd(fabsq(Q(Sd) - Q(S12)) / tS);
           ctx.worst(V.wname("close.direct_of_inverse.S12", mode) + ".err_over_tol", r3, key);
           if (!(r3 <= K_CLOSE)) ctx.fail(key + " closure-area", "area of Direct(lat1,lon1,azi12,s12) " + fx(Sd) + " != area of the inverse " + fx(S12), FF("direct-of-inverse-area"));
@@ -258,11 +265,11 @@ int main(int argc, char** argv) {
       Q sens_lon = fabsq(dp.dlon - d.dlon) * rhq::deg() * d.R2;
       Q sens_S = fabsq(dp.S12 - d.S12);
       // within this margin of a pole crossing either classification is accepted
-      bool fuzzy = d.margin <= 1024 * EPS * scale || d.pastpole != dp.pastpole;
+      bool fuzzy0 = d.pastpole != dp.pastpole;
       // inverse oracle at the oracle's end point (closure identity), only for the short way
-      bool closure = !d.pastpole && !d.polestart && !fuzzy && fabsq(d.dlon) < Q(179.99) && fabsq(d.lat2) < 90;
+      bool closure0 = !d.pastpole && !d.polestart && !fuzzy0 && fabsq(d.dlon) < Q(179.99) && fabsq(d.lat2) < 90;
       rhq::Inv io; Q isens_s = 0, isens_az = 0;
-      if (closure) {
+      if (closure0) {
         rhq::Lat P2(d.lat2 * rhq::deg(), 0);
         rhq::InvCore k0 = rhq::inv_core(E, P1, P2), k1 = rhq::inv_core(E, P1p, P2), k2 = rhq::inv_core(E, P1, rhq::toward_equator(P2, DELTA));
         io = rhq::inv_eval(k0, lam); rhq::Inv i1 = rhq::inv_eval(k1, lam), i2 = rhq::inv_eval(k2, lam);
@@ -273,8 +280,12 @@ int main(int argc, char** argv) {
         if (!V.rh[mode]) continue;
         const Rhumb& rh = *V.rh[mode];
         Ctx::Case cs(ctx);
+        // within this margin of a pole crossing either classification is accepted (4 x the latitude tolerance)
+        bool fuzzy = fuzzy0 || d.margin <= 4 * V.keff(KLAT_, mode, CTR_) * (EPS * scale + sens_lat);
+        bool closure = closure0 && !fuzzy;
+        V.deq = mode == 1 && V.es.f < 0 && std::fabs(lat1) <= 1 && fabsq(d.lat2) <= 1;
         std::string key = V.ename + " exact=" + fmti(mode) + " dir(" + fx(lat1) + "," + fx(lon1) + "," + fx(azi) + "," + fx(s12) + ") unroll=" + fmti(unroll);
-        mc::Fields F{{"ell", V.ename}, {"exact", fmti(mode)}, {"lat1", fmt(lat1)}, {"azi12", fmt(azi)}, {"s12", fmt(s12)}, {"unroll", fmti(unroll)}};
+        mc::Fields F{{"ell", V.ename}, {"exact", fmti(mode)}, {"lat1", fmt(lat1)}, {"azi12", fmt(azi)}, {"s12", fmt(s12)}, {"unroll", fmti(unroll)}, {"class", V.deq ? DEQ_CLASS : "-"}};
         auto FF = [&](const char* kind) { mc::Fields g = F; g.push_back({"kind", kind}); return g; };
         unsigned mask = Rhumb::LATITUDE | Rhumb::LONGITUDE | Rhumb::AREA | (unroll ? Rhumb::LONG_UNROLL : 0);
         double lat2 = SENT, lon2 = SENT, S12 = SENT;
@@ -292,8 +303,8 @@ int main(int argc, char** argv) {
         // ---- latitude (always defined, also beyond the pole)
         if (!(std::fabs(lat2) <= 90)) ctx.fail(key, "lat2 = " + fx(lat2) + " outside [-90,90]", FF("lat-range"));
         Q elat = (Q(lat2) - d.lat2) * rhq::deg() * d.M2;
-        if (judge(V, d.pastpole ? "dir.lat2_beyond_pole" : "dir.lat2", mode, K_LAT, elat, V.rel(mode) * scale + sens_lat, key))
-          ctx.fail(key + " lat2", "lat2 = " + fx(lat2) + " oracle " + qs(d.lat2) + " (" + qs(elat) + " m, model " + qs(V.rel(mode) * scale + sens_lat) + ")", FF(d.pastpole ? "dir-lat2-beyond-pole" : "dir-lat2"));
+        if (judge(V, d.pastpole ? "dir.lat2_beyond_pole" : "dir.lat2", mode, K_LAT, elat, EPS * scale + sens_lat, key))
+          ctx.fail(key + " lat2", "lat2 = " + fx(lat2) + " oracle " + qs(d.lat2) + " (" + qs(elat) + " m, model " + qs(EPS * scale + sens_lat) + ")", FF(d.pastpole ? "dir-lat2-beyond-pole" : "dir-lat2"));
         if (mode == 0) trunc_stat(V, "dir.lat2", elat, scale, sens_lat, key);
         // ---- longitude and area
         if (d.polestart) {
@@ -316,20 +327,20 @@ int main(int argc, char** argv) {
             }
             // lon2 is a double: one rounding of the result itself
             Q rnd = Q(mc::ulp_of(lon2)) * rhq::deg() * d.R2;
-            if (judge(V, unroll ? "dir.lon2_unrolled" : "dir.lon2", mode, K_LON, elon, V.rel(mode) * scale + sens_lon + rnd, key))
-              ctx.fail(key + " lon2", "lon2 = " + fx(lon2) + " oracle lon1 + " + qs(d.dlon) + " (" + qs(elon) + " m, model " + qs(V.rel(mode) * scale + sens_lon + rnd) + ")", FF(unroll ? "dir-lon2-unrolled" : "dir-lon2"));
+            if (judge(V, unroll ? "dir.lon2_unrolled" : "dir.lon2", mode, K_LON, elon, EPS * scale + sens_lon + rnd, key))
+              ctx.fail(key + " lon2", "lon2 = " + fx(lon2) + " oracle lon1 + " + qs(d.dlon) + " (" + qs(elon) + " m, model " + qs(EPS * scale + sens_lon + rnd) + ")", FF(unroll ? "dir-lon2-unrolled" : "dir-lon2"));
             if (mode == 0) trunc_stat(V, "dir.lon2", elon, scale, sens_lon + rnd, key);
-            if (judge(V, "dir.S12", mode, K_DAREA, Q(S12) - d.S12, V.rel(mode) * ascale + sens_S, key))
-              ctx.fail(key + " S12", "S12 = " + fx(S12) + " oracle " + qs(d.S12) + " model " + qs(V.rel(mode) * ascale + sens_S), FF("dir-S12"));
+            if (judge(V, "dir.S12", mode, K_DAREA, Q(S12) - d.S12, EPS * ascale + sens_S, key))
+              ctx.fail(key + " S12", "S12 = " + fx(S12) + " oracle " + qs(d.S12) + " model " + qs(EPS * ascale + sens_S), FF("dir-S12"));
             if (mode == 0) trunc_stat(V, "dir.S12", Q(S12) - d.S12, ascale, sens_S, key);
             // ---- Inverse(Direct) returns the course
             if (closure && std::fabs(lat2) < 90) {
               double si = SENT, ai = SENT, Si = SENT;
               rh.GenInverse(lat1, lon1, lat2, lon2, Rhumb::ALL, si, ai, Si);
               Q azx = s12 >= 0 ? Q(azi) : Q(azi) + 180;
-              Q relc = EPS + (mode == 0 ? CTR_ * V.n7 : 0);
-              Q tdir = KLAT_ * (relc * scale + sens_lat) + KLON_ * (relc * scale + sens_lon + rnd);
-              Q ts = KS_ * (relc * scale + isens_s) + tdir, ta = KAZI_ * (relc * scale + isens_az) + tdir;
+              auto KE = [&](double K) { return Q(V.keff(K, mode, CTR_)); };
+              Q tdir = KE(KLAT_) * (EPS * scale + sens_lat) + KE(KLON_) * (EPS * scale + sens_lon + rnd);
+              Q ts = KE(KS_) * (EPS * scale + isens_s) + tdir, ta = KE(KAZI_) * (EPS * scale + isens_az) + tdir;
               double r1 = qd(fabsq(Q(si) - fabsq(Q(s12))) / ts), r2 = qd(fabsq(angdiff360(Q(ai), azx)) * rhq::deg() * fabsq(Q(s12)) / ta);
               ctx.worst(V.wname("close.inverse_of_direct.s12", mode) + ".err_over_tol", r1, key);
               ctx.worst(V.wname("close.inverse_of_direct.azi12_x_s12", mode) + ".err_over_tol", r2, key);
@@ -341,11 +352,11 @@ int main(int argc, char** argv) {
         // ---- series and exact agree for |f| <= 0.01 (latitude always; longitude/area where defined)
         if (mode == 1 && V.rh[0] && V.smallf()) {
           double la0 = SENT, lo0 = SENT, S0 = SENT; V.rh[0]->GenDirect(lat1, lon1, azi, s12, mask, la0, lo0, S0);
-          bool bad = judge(V, "series_vs_exact.dir.lat2", 1, K_LAT, (Q(la0) - Q(lat2)) * rhq::deg() * d.M2, (V.rel(0) + V.rel(1)) * scale + 2 * sens_lat, key);
+          bool bad = judge(V, "series_vs_exact.dir.lat2", 1, K_LAT, (Q(la0) - Q(lat2)) * rhq::deg() * d.M2, 2 * EPS * scale + 2 * sens_lat, key);
           if (!d.polestart && !fuzzy && !d.pastpole && std::isfinite(lon2) && std::isfinite(lo0)) {
             Q rnd = Q(mc::ulp_of(lon2)) * rhq::deg() * d.R2;
-            bad |= judge(V, "series_vs_exact.dir.lon2", 1, K_LON, (unroll ? Q(lo0) - Q(lon2) : angdiff360(Q(lo0), Q(lon2))) * rhq::deg() * d.R2, (V.rel(0) + V.rel(1)) * scale + 2 * sens_lon + 2 * rnd, key);
-            bad |= judge(V, "series_vs_exact.dir.S12", 1, K_DAREA, Q(S0) - Q(S12), (V.rel(0) + V.rel(1)) * ascale + 2 * sens_S, key);
+            bad |= judge(V, "series_vs_exact.dir.lon2", 1, K_LON, (unroll ? Q(lo0) - Q(lon2) : angdiff360(Q(lo0), Q(lon2))) * rhq::deg() * d.R2, 2 * EPS * scale + 2 * sens_lon + 2 * rnd, key);
+            bad |= judge(V, "series_vs_exact.dir.S12", 1, K_DAREA, Q(S0) - Q(S12), 2 * EPS * ascale + 2 * sens_S, key);
           }
           if (bad) ctx.fail(key + " series-exact", "series and exact variants disagree: (" + fx(la0) + "," + fx(lo0) + "," + fx(S0) + ") vs (" + fx(lat2) + "," + fx(lon2) + "," + fx(S12) + ")", FF("series-vs-exact"));
         }
@@ -353,6 +364,6 @@ int main(int argc, char** argv) {
       }
     }
   }
-  ctx.note("tolerance model: K * [(eps + C_TR |n|^7 [series]) * scale + sens]; sens = change of the oracle answer under a 2^-52*90deg move of a latitude argument; K_S=" + fmt(K_S) + " K_AZI=" + fmt(K_AZI) + " K_AREA=" + fmt(K_AREA) + " K_LAT=" + fmt(K_LAT) + " K_LON=" + fmt(K_LON) + " K_DAREA=" + fmt(K_DAREA) + " C_TR=" + fmt(C_TR) + " (calibrated on the unchanged tree, frozen)");
+  ctx.note("tolerance model: (K + C_TR |n|^7/eps [series]) * [eps * scale + sens]; sens = change of the oracle answer under a 2^-52*90deg move of a latitude argument; K_S=" + fmt(K_S) + " K_AZI=" + fmt(K_AZI) + " K_AREA=" + fmt(K_AREA) + " K_LAT=" + fmt(K_LAT) + " K_LON=" + fmt(K_LON) + " K_DAREA=" + fmt(K_DAREA) + " C_TR=" + fmt(C_TR) + " (calibrated on the unchanged tree, frozen)");
   return ctx.finish();
 }
